@@ -51,7 +51,7 @@ def check(prog, run):
     purity_rule(prog, run, "R1")
 
 
-def purity_rule(prog, run, R):
+def purity_rule(prog, run, R, only=None):
     try:
         cx = common.Ctx(prog)
     except AnchorMissing as e:
@@ -71,6 +71,8 @@ def purity_rule(prog, run, R):
         if not v:
             run.ok(R, "pure %s" % mir.norm(f), "%d store site(s) x %d error exit(s): no store reaches an error exit" % (ns, ne), mir.loc_of(u.bodies[f]))
         for x in v:
+            if only is not None and not only(x["store"]):
+                continue
             run.bad(R, "impure %s store=%s exit=%s" % (mir.norm(f), x["store"], x["exit"]),
                     "state `%s` is written (%s, %s) on a path that then fails with %s at %s: the rejected call leaves a trace"
                     % (x["store"], x["why"], x["loc_store"], x["exit"], x["loc_exit"]), x["loc_store"],
